@@ -60,33 +60,35 @@ type Obligation struct {
 }
 
 type Enc struct {
-	w        *World
-	sc       *Script
-	sorts    *SortTable
-	comps    *Comps
-	stateN   int
-	obs      []*Obligation
-	warnings []string
+	curCallee     *ssa.Function // static callee of the call being translated by defaultCall
+	loopFreshOnly []string      // set by loopModSet: components the loop writes only through memory allocated by the function itself
+	w             *World
+	sc            *Script
+	sorts         *SortTable
+	comps         *Comps
+	stateN        int
+	obs           []*Obligation
+	warnings      []string
 	// stats
-	inlined   map[string]bool
-	trusted   map[string]bool // trusted spec entries used
-	havocked  map[string]bool // calls with default havoc
-	effFree   map[string]bool
-	unsupp    map[string]bool
-	top       *Frame
-	allocN    int
-	logs      map[string]bool
-	checkSafe bool
-	axSt      *State
-	evalErrs  []string
-	evalFailed bool
-	immut     map[string]bool
-	allocs    []allocInfo
-	allocIdx  map[Term]int
-	contEdges map[int][]int
+	inlined           map[string]bool
+	trusted           map[string]bool // trusted spec entries used
+	havocked          map[string]bool // calls with default havoc
+	effFree           map[string]bool
+	unsupp            map[string]bool
+	top               *Frame
+	allocN            int
+	logs              map[string]bool
+	checkSafe         bool
+	axSt              *State
+	evalErrs          []string
+	evalFailed        bool
+	immut             map[string]bool
+	allocs            []allocInfo
+	allocIdx          map[Term]int
+	contEdges         map[int][]int
 	pendingAllocComps []string
 	pendingAllocType  types.Type
-	frameChk  func(fr *Frame, what string, ref Term, st *State, rb Term, pos token.Pos)
+	frameChk          func(fr *Frame, what string, ref Term, st *State, rb Term, pos token.Pos)
 }
 
 type deferRec struct {
@@ -97,26 +99,26 @@ type deferRec struct {
 }
 
 type Frame struct {
-	fn       *ssa.Function
-	vals     map[ssa.Value]Val
-	args     []Val
-	bind     []Val
-	contract *Contract
-	entry    *State
-	depth    int
-	defers   []deferRec
-	parent   *Frame
-	top      *Frame
-	callN    map[string]int
-	locals   map[*ssa.Alloc]string
-	stack    []*ssa.Function
-	retVals  []Val // at exit, for ensures
-	loopHdr  *ssa.BasicBlock
-	curBlock *ssa.BasicBlock
-	names    map[string]ssa.Value // source name -> unique SSA value (from DebugRef)
-	ambig    map[string]bool
-	recovered Term
-	panicReach []Term
+	fn          *ssa.Function
+	vals        map[ssa.Value]Val
+	args        []Val
+	bind        []Val
+	contract    *Contract
+	entry       *State
+	depth       int
+	defers      []deferRec
+	parent      *Frame
+	top         *Frame
+	callN       map[string]int
+	locals      map[*ssa.Alloc]string
+	stack       []*ssa.Function
+	retVals     []Val // at exit, for ensures
+	loopHdr     *ssa.BasicBlock
+	curBlock    *ssa.BasicBlock
+	names       map[string]ssa.Value // source name -> unique SSA value (from DebugRef)
+	ambig       map[string]bool
+	recovered   Term
+	panicReach  []Term
 	panicStates []*State
 }
 
@@ -577,7 +579,19 @@ func (e *Enc) execFunc(fr *Frame, st *State, reach Term) ([]Val, *State, Term) {
 			// 2. havoc
 			body := loopBody(b)
 			mod := e.loopModSet(fr, body)
+			freshOnly := e.loopFreshOnly
+			pre := cur
 			cur = e.HavocLoop(cur, mod)
+			if len(freshOnly) > 0 && fr.top != nil && fr.top.entry != nil {
+				// allocation frame: cells that existed when the function was entered are not written by
+				// this loop (all its stores into these components go to memory the function allocated)
+				al := e.Get(fr.top.entry, "$alloc")
+				for _, c := range freshOnly {
+					if e.Get(cur, c) != e.Get(pre, c) {
+						e.sc.Assert(fmt.Sprintf("(forall ((r Int)) (=> (select %s r) (= (select %s r) (select %s r))))", al, e.Get(cur, c), e.Get(pre, c)))
+					}
+				}
+			}
 			for _, in := range b.Instrs {
 				if phi, ok := in.(*ssa.Phi); ok {
 					nv := e.freshVal("loop_"+phi.Name(), phi.Type())
@@ -896,7 +910,6 @@ func (e *Enc) refsOf(v Val, out []Term, depth int) []Term {
 	}
 	return out
 }
-
 
 // typedRefsOf collects the reference terms contained in a value together with their static types.
 func (e *Enc) typedRefsOf(v Val, out []typedRef, depth int) []typedRef {
